@@ -11,7 +11,7 @@ TECHNIQUE = ('runtime monitoring: reference accumulator (allowed, check, schema 
 LEVEL = 'exploration'
 RULE = ("case = (block kind Input/InputExp, allowed subset or None, check table or None, schema "
         "table or None (entries may raise), initdef/expired/stored values, put sequence of "
-        "length<=6 over the 8-value domain); every put's return value, the output and get_state() "
+        "length<=6 over the 11-value domain incl. 1, True, 1.0 and 0, False); every put's return value, the output and get_state() "
         "after it are compared with the reference accumulator; constructor refusal of invalid "
         "initdef/expired checked in separate circuits; distinct = canonical case; non-trivial = "
         "at least one put compared or one constructor refusal observed")
@@ -29,10 +29,12 @@ REQUIRED = {'allowed_collection_mutated': 50, 'puts_compared': 1000, 'rejections
 SHARDS = {'quick': 8, 'thorough': 16}
 TIMEOUT = {'quick': 300, 'thorough': 3000}
 
-DOMAIN = [0, 1, 2, 'a', None, 3.5, (1,), [1]]
-HASHABLE = [0, 1, 2, 'a', None, 3.5, (1,)]
+# (1, True and 1.0 - 0 and False - are equal, hash alike and are still different values for a
+# validator: each has its own row in the check and schema tables)
+DOMAIN = [0, 1, 2, 'a', None, 3.5, (1,), True, False, 1.0, [1]]
+HASHABLE = DOMAIN[:-1]
 CHECK_RETS = [True, False, 1, 0, 'yes', '', None, [0], []]
-SCHEMA_OUT = [0, 1, 2, 'a', None, 3.5, (1,), 'S', 99, [7]]
+SCHEMA_OUT = [0, 1, 2, 'a', None, 3.5, (1,), 'S', 99, [7], True, 0.0]
 class SchemaInvalid(Exception):
     """A validation library's own error class (derived directly from Exception)."""
 
@@ -319,7 +321,7 @@ def run_batch(batch, ctx):
                 continue
             value = DOMAIN[case['cleanup_put']]
             ok, newval = vals[i].ref(value)
-            want = newval if ok else finals[i][0]
+            want = upd(finals[i][0], newval) if ok else finals[i][0]
             ctx.count('cleanup_puts_checked')
             got = out['objs'][i].output
             if not eq(got, want):
@@ -344,6 +346,19 @@ def run_batch(batch, ctx):
 
 def eq(a, b):
     return type(a) is type(b) and a == b
+
+
+_NOTHING = object()
+
+
+def upd(cur, out):
+    """
+    The output after an accepted value: SBlock.set_output() keeps the present output object when
+    the new value compares equal to it (no change, no event), so 1 stays 1 after put(True).
+    """
+    if cur is not _NOTHING and cur == out:
+        return cur
+    return out
 
 
 def check_one(case, blk, val, sim, ctx):
@@ -378,7 +393,7 @@ def check_one(case, blk, val, sim, ctx):
             ctx.count('puts_before_the_first_init_pass')
             ok2, out2 = val.ref(DOMAIN[case['early_put']])
             if ok2:
-                cur = out2
+                cur = upd(cur, out2)
             if val.early_results != [ok2]:
                 raise core.Violation(
                     f"{'accepted' if ok2 else 'rejected'}-put-returned-{val.early_results!r}"[:70],
@@ -391,6 +406,7 @@ def check_one(case, blk, val, sim, ctx):
             f"{kind}: {src} output {blk.output!r}, reference {cur!r} "
             f"(initdef={DOMAIN[case['initdef']]!r}, stored="
             f"{'-' if case['stored'] is None else repr(DOMAIN[case['stored']])})")
+    stv = cur
     for k, idx in enumerate(case['puts']):
         value = DOMAIN[idx]
         ok, out = val.ref(value)
@@ -427,7 +443,10 @@ def check_one(case, blk, val, sim, ctx):
                     f"{kind}: check() was called with {arg!r} instead of the original {value!r}")
         if ok:
             ctx.count('acceptances_seen')
-            cur = out
+            if cur == out and not eq(cur, out):
+                ctx.count('accepted_equal_value_of_another_type')
+            cur = upd(cur, out)
+            stv = out
             if ret is not True:
                 raise core.Violation(
                     f'accepted-put-returned-{ret!r}',
@@ -449,8 +468,8 @@ def check_one(case, blk, val, sim, ctx):
                 raise core.Violation('state-differs', f"Input state {blk.get_state()!r} != {cur!r}")
         else:
             st = blk.get_state()
-            if st[0] != 'valid' or not eq(st[2].get('input'), cur):
-                raise core.Violation('state-differs', f"InputExp state {st!r}, value {cur!r}")
+            if st[0] != 'valid' or not eq(st[2].get('input'), stv):
+                raise core.Violation('state-differs', f"InputExp state {st!r}, value {stv!r}")
     return (cur,)
 
 
